@@ -18,7 +18,7 @@ MsgsQ == {<<1, 0, 6>>, <<1, 2, 3, 4, 6>>}
 MsgsT == {<<>>, <<0, 0>>, <<1, 0, 6>>, <<1, 2, 3, 4, 6>>, <<1, 2, 3, 4, 0, 7>>}
 Sh(k, v, wc, wo, rc, ro, g) == [sec |-> "framed", kind |-> k, via |-> v, wcap |-> wc, woff |-> wo, rcap |-> rc, roff |-> ro, grow |-> g]
 ShapesQ == {Sh("s5", "c", 8, 5, 8, 6, 2), Sh("s5", "cxx", 0, 0, 0, 0, 8)}
-ShapesT == {Sh("s5", "c", 8, 5, 8, 6, 2), Sh("s5", "cxx", 0, 0, 0, 0, 8), Sh("s5r", "cxx", 8, 5, 8, 6, 2)}
+ShapesT == {Sh("s5", "c", 8, 5, 8, 6, 2), Sh("s5", "cxx", 0, 0, 0, 0, 8), Sh("s5", "cxx", 8, 5, 8, 6, 2)}
 KsQ == {1, 1000000}
 KsT == {1, 2, 1000000}
 PeekQ == {<<9, 1>>}
